@@ -58,9 +58,21 @@ def gen(rng, tier):
                     c["from"] = TG.replace_at(cfg, pth, A(L[:k])); c["merges"] = [{"b": nestp(A(L)), "opts": []}]
                 c["_tag"] += "+grown"
                 c["_sig"] += "|grown-" + how
+        elif rng.chance(0.35):
+            # the same configuration with some names spelled with dots (PathSep): the objects in between are created by the
+            # path code, not by the normalizer - the path of the faulty setting and its source stay the same
+            from . import c05
+            fk = set()
+            flat = c05.flatten_partial(rng, cfg, ".", fk)
+            if fk:
+                c["from"] = flat
+                c["copts"] = [opt("PathSep", ".")]
+                c["uopts"] = [opt("PathSep", ".")]
+                c["_tag"] += "+dotted"
+                c["_sig"] += "|dotted"
         if rng.chance(0.4):
             src = rng.pick(["conf.yml", "/etc/app/a.json", "in-memory"])
-            c["copts"] = [{"o": "MetaData", "v": src}]
+            c["copts"] = c["copts"] + [{"o": "MetaData", "v": src}]
             for m in c.get("merges", []):
                 m["opts"] = m["opts"] + [{"o": "MetaData", "v": src}]
             c["source"] = src
